@@ -3,7 +3,7 @@
 
    Model: Idl/Reflect.v
      descriptor_of            thrift_reflection.GetFileDescriptor (after the repair
-                              proposed_fixes/C15-namespaces-first-wins)
+                              proposed_fixes/C15-namespaces-first-wins and C15-include-prefix-any-extension)
      project_a / project_d    the items the property names, read off the AST (the specification) and
                               off a descriptor: names, field ids, requiredness, type expressions with
                               key / value types, default values, enum numbers, annotations key -> all
@@ -20,7 +20,7 @@
      file_annos_ok f       the annotations of every node have pairwise distinct keys (what the parser
                            builds: Annotations.Append groups repeated keys)
      distinct_basenames f  no two includes of f have the same base name
-     includes_plain f      every include was parsed and the file found is called <base>.thrift
+     includes_plain f      every include was parsed and the file found has the base name the statement wrote
      prog_ok P             every file once, under its own Filename
      fdesc_ok d            the maps of d have pairwise distinct keys (Go maps), type numbers fit 32 bits
      wfb (enc_fdesc d)     strings / lists shorter than 2^31, ids 32 bit: d fits the wire format *)
@@ -51,6 +51,20 @@ Theorem C15_descriptor_of_injective_on_projection : forall f g,
   descriptor_of f = descriptor_of g -> project_a f = project_a g.
 Proof. exact descriptor_of_injective_on_projection. Qed.
 Print Assumptions C15_descriptor_of_injective_on_projection.
+
+(* and the descriptor holds nothing else: it is a function of these items *)
+Theorem C15_descriptor_from_facts : forall f,
+  file_annos_ok f = true -> distinct_basenames f = true -> includes_plain f = true ->
+  descriptor_of f = fdesc_of_facts (project_a f).
+Proof. exact descriptor_from_facts. Qed.
+Print Assumptions C15_descriptor_from_facts.
+
+Theorem C15_descriptor_determined_by_projection : forall f g,
+  file_annos_ok f = true -> distinct_basenames f = true -> includes_plain f = true ->
+  file_annos_ok g = true -> distinct_basenames g = true -> includes_plain g = true ->
+  project_a f = project_a g -> descriptor_of f = descriptor_of g.
+Proof. exact descriptor_determined_by_projection. Qed.
+Print Assumptions C15_descriptor_determined_by_projection.
 
 (* the namespace map is the one thriftgo itself reads from the header: first line of a language,
    last line of "*" — for every file *)
